@@ -442,7 +442,7 @@ func (p *Program) assembleQuery(res *FuncResult, o *Obl, forModel bool) string {
 func (p *Program) defaultTheories() []string {
 	var out []string
 	for _, th := range p.theoryOrder {
-		if th == "core" || th == "bytes" {
+		if th == "core" || th == "bytes" || th == "pricingrec" {
 			continue
 		}
 		out = append(out, th)
